@@ -516,8 +516,9 @@ func stripOAIGen(opts *FlattenOpts) (bool, error) {
 		updateRefParents(opts.Spec.references.allRefs, r)
 	}
 
-	for k := range opts.flattenContext.newRefs {
-		r := opts.flattenContext.newRefs[k]
+	// OAIGen definitions to merge back into their referers
+	pending := make([]string, 0, len(opts.flattenContext.newRefs))
+	for k, r := range opts.flattenContext.newRefs {
 		debugLog("newRefs[%s]: isOAIGen: %t, resolved: %t, name: %s, path:%s, #parents: %d, parents: %v,  ref: %s",
 			k, r.isOAIGen, r.resolved, r.newName, r.path, len(r.parents), r.parents, r.schema.Ref.String())
 
@@ -533,7 +534,27 @@ func stripOAIGen(opts *FlattenOpts) (bool, error) {
 			continue
 		}
 
-		hasReplacedWithComplex, err := stripOAIGenForRef(opts, k, r)
+		pending = append(pending, k)
+	}
+	sort.Strings(pending)
+
+	for len(pending) > 0 {
+		// An OAIGen definition may be referred to from within another one. The outer one must go first (its removal
+		// moves the referers it contains): merging the inner one first would leave $ref's pointing inside a definition
+		// which is about to be removed.
+		next := 0
+		for i, k := range pending {
+			if !hasParentWithin(opts.flattenContext.newRefs[k], pending, opts.flattenContext.newRefs) {
+				next = i
+
+				break
+			}
+		}
+
+		k := pending[next]
+		pending = append(pending[:next], pending[next+1:]...)
+
+		hasReplacedWithComplex, err := stripOAIGenForRef(opts, k, opts.flattenContext.newRefs[k])
 		if err != nil {
 			return replacedWithComplex, err
 		}
@@ -545,6 +566,24 @@ func stripOAIGen(opts *FlattenOpts) (bool, error) {
 	opts.Spec.reload() // re-analyze
 
 	return replacedWithComplex, nil
+}
+
+// hasParentWithin tells whether a new definition is referred to from within another pending OAIGen definition
+func hasParentWithin(r *newRef, pending []string, newRefs map[string]*newRef) bool {
+	for _, k := range pending {
+		other := newRefs[k]
+		if other == r {
+			continue
+		}
+
+		for _, parent := range r.parents {
+			if strings.HasPrefix(parent, other.path+"/") {
+				return true
+			}
+		}
+	}
+
+	return false
 }
 
 // isReferredFromWithin tells whether one of the parents of a new definition lies inside this very definition
@@ -563,6 +602,7 @@ func updateRefParents(allRefs map[string]spec.Ref, r *newRef) {
 	if !r.isOAIGen || r.resolved { // bail on already resolved entries (avoid looping)
 		return
 	}
+
 	for k, v := range allRefs {
 		if r.path != v.String() {
 			continue
@@ -733,6 +773,13 @@ func namePointers(opts *FlattenOpts) error {
 
 	for _, key := range depthFirst {
 		v := refsToReplace[key]
+
+		// the schema holding this pointer, or the one it points to, may have been moved to a new definition by previous changes
+		key, _ = namer.rebasePointer(key)
+		if rebased, ok := namer.rebasePointer(v.Ref.String()); ok {
+			v.Ref = spec.MustCreateRef(rebased)
+		}
+
 		// update current replacement, which may have been updated by previous changes of deeper elements
 		result, erd := replace.DeepestRef(opts.Swagger(), opts.ExpandOpts(false), v.Ref)
 		if erd != nil {
